@@ -214,6 +214,7 @@ def c02(run):
                       "set:k6:collide:20:250:setalg", "set:k7:onegroup:12:200:set", "set:k8t:collide:20:400:setalg:" + F]),
          ("lay_table", ["table:te24:collide:20:400:table:" + F, "table:te208:zero:12:250:table", "table:tea64:fewpos:16:250:table", "table:t1:collide:30:300:table"]),
          ("zst", ["table:t0:zero:1:1500:tablezst", "table:t0:max:1:600:tablezst", "table:t0a:zero:1:600:tablezst"], {"module": "HbZstTrace.tla", "cfg": "HbZstTrace.cfg"}),
+         ("lay_many", ["map:kv16:collide:16:800:many", "map:k4v4:zero:10:400:many", "map:kv16:zero:10:400:many:chaos=1"]),
          ("lay_dropfault", ["map:kv16:collide:20:500:iter:fault=30,fclass=drop", "table:te24:zero:14:300:table:fault=25,fclass=drop", "set:k8t:collide:16:300:set:fault=25,fclass=drop"])],
         [("lay2", ["map:kv24:collide:24:3000:wide:" + F, "map:k5v4:zero:14:2000:wide", "set:k8:mixed:40:2000:set", "table:te32:lowbit:14:2000:table:" + F]),
          ("layg", ["map:kv16:collide:24:2000:wide:" + F, "map:kva64:zero:14:1000:iter", "set:k3:collide:20:1000:set", "table:te24:zero:12:1500:table"], G),
